@@ -80,6 +80,7 @@ namespace vs
         std::map<const void *, int> depth;               // recursive mutex depth
         std::int64_t clock_ns{0};
         std::uint64_t clock_reads{0};
+        bool atomic_points{true};                         // scheduling points at hooked lock-free flag accesses
         bool spurious{false};                             // offer spurious wake-ups of condition waiters as a (costly) deviation
         std::uint64_t spurious_wakes{0};
         std::int64_t clock_jump_ns{0};                    // != 0: every clock read is a choice point {stand still, jump ahead by this much}
@@ -392,6 +393,13 @@ namespace vs
 }  // namespace vs
 
 // ---- interposed symbols -----------------------------------------------------------------------------------------------------
+// Source hook (guard HGRAPH_VERIF, see MANIFEST.hooks): the real-time executor's lock-free stop flag yields here around every access,
+// so preemptions at that flag are explored like preemptions at mutex operations.
+extern "C" void hgraph_verif_point(const char *what) noexcept
+{
+    if (vs::in_control() && vs::S().atomic_points) vs::reschedule(vs::S(), what, true);
+}
+
 extern "C"
 {
     inline int vs_passthrough_guard() { return vs::S().resolving.load(); }
